@@ -57,8 +57,10 @@ Proof.
     assert (Hl : shift <= Z.log2 i) by (apply Z.log2_le_pow2; lia).
     cbn [fst snd]. unfold bucket_cap, bucket_start.
     replace (Z.succ (Z.log2 i)) with (Z.log2 i + 1) in L2 by lia. rewrite g_pow2_succ in L2 by lia.
-    destruct (Z.log2 i + 1 - shift <=? 1) eqn:E1; destruct (Z.log2 i + 1 - shift <=? 0) eqn:E2; try lia.
-    + assert (Z.log2 i = shift) as -> by lia. replace (shift + (shift + 1 - shift) - 1) with shift by lia. lia.
+    destruct (Z.log2 i + 1 - shift <=? 1) eqn:E1; destruct (Z.log2 i + 1 - shift <=? 0) eqn:E2.
+    + exfalso; lia.
+    + assert (EL : Z.log2 i = shift) by lia. rewrite EL in *. replace (shift + (shift + 1 - shift) - 1) with shift by lia. lia.
+    + exfalso; lia.
     + replace (shift + (Z.log2 i + 1 - shift) - 1) with (Z.log2 i) by lia. lia.
 Qed.
 
@@ -177,7 +179,7 @@ Proof.
       * destruct (alloc_check_index strat ce <? se) eqn:Q; [|destruct L]. apply Z.ltb_lt in Q.
         destruct L as [<-|[]]. split; [lia|]. rewrite Tbe1. split; [|lia].
         destruct (Z.eq_dec b be) as [Eb|Nb'].
-        -- assert (c = ce) by congruence. rewrite <- Eb. fold chk. subst ce. lia.
+        -- assert (Ec : ce = c) by congruence. rewrite <- Eb, Ec. fold chk. lia.
         -- pose proof (g_start_mono shift (b + 1) be Hs ltac:(lia)). pose proof (g_aci_range strat ce ltac:(lia)). lia.
     + intros [Hk [T1 T2]].
       pose proof (g_trigger_bkt strat shift k Hs Hk) as TB.
@@ -236,8 +238,129 @@ Qed.
 (* every bucket is handed to tryAssignBuffer at most once per call *)
 Lemma NoDup_allocsN strat shift i d : NoDup (allocsN strat shift i d).
 Proof.
-  unfold allocsN. destruct (_ || _); [|constructor].
-  destruct (_ <? _).
+  unfold allocsN. cbv zeta. destruct (_ || _); [|constructor].
+  destruct (alloc_check_index strat (capof shift (i + d)) <? sub shift (i + d)).
   - apply NoDup_snoc; [apply NoDup_zrange | rewrite in_zspan; lia].
   - rewrite app_nil_r. apply NoDup_zrange.
+Qed.
+
+(* ------------------------------------------------------------------------------------------------ partitions of [0,n) into consecutive reservations *)
+Record pres := PR { p_single : bool; p_start : Z; p_delta : Z }.   (* p_single: made by emplace_back (delta 1) *)
+Definition pcovers (r : pres) (x : Z) : Prop := p_start r <= x < p_start r + p_delta r.
+Definition allocs_of (strat shift : Z) (r : pres) : list Z :=
+  if p_single r then allocs1 strat shift (p_start r) else allocsN strat shift (p_start r) (p_delta r).
+Definition waits_of (shift : Z) (r : pres) : list Z :=
+  if p_single r then waits1 shift (p_start r) else waitsN shift (p_start r) (p_delta r).
+Fixpoint partition_from (from : Z) (l : list pres) : Prop :=
+  match l with
+  | [] => True
+  | r :: l' => p_start r = from /\ 0 <= p_delta r /\ (p_single r = true -> p_delta r = 1) /\ partition_from (from + p_delta r) l'
+  end.
+Fixpoint ptotal (l : list pres) : Z := match l with [] => 0 | r :: l' => p_delta r + ptotal l' end.
+
+Lemma allocs_of_spec strat shift r k :
+  0 <= shift -> 0 <= p_start r -> 0 <= p_delta r -> (p_single r = true -> p_delta r = 1) ->
+  (In k (allocs_of strat shift r) <-> 1 <= k /\ pcovers r (trigger strat shift k)).
+Proof.
+  intros Hs H0 Hd H1. unfold allocs_of, pcovers. destruct (p_single r) eqn:S.
+  - rewrite allocs1_spec by assumption. rewrite (H1 eq_refl). lia.
+  - apply allocsN_spec; assumption.
+Qed.
+
+Lemma ptotal_app l1 l2 : ptotal (l1 ++ l2) = ptotal l1 + ptotal l2.
+Proof. induction l1 as [|r l1 IH]; cbn [ptotal app]; lia. Qed.
+
+Lemma partition_app f l1 l2 : partition_from f (l1 ++ l2) <-> partition_from f l1 /\ partition_from (f + ptotal l1) l2.
+Proof.
+  revert f; induction l1 as [|r l1 IH]; intros f; cbn [app partition_from ptotal].
+  - replace (f + 0) with f by lia. tauto.
+  - rewrite IH. replace (f + p_delta r + ptotal l1) with (f + (p_delta r + ptotal l1)) by lia. tauto.
+Qed.
+
+Lemma partition_in f l r : partition_from f l -> In r l ->
+  f <= p_start r /\ 0 <= p_delta r /\ (p_single r = true -> p_delta r = 1) /\ p_start r + p_delta r <= f + ptotal l.
+Proof.
+  revert f; induction l as [|r0 l IH]; intros f P I; [destruct I|].
+  cbn [partition_from ptotal] in *. destruct P as (S & D & O & P).
+  assert (T : 0 <= ptotal l).
+  { clear - P. revert P. generalize (f + p_delta r0). induction l as [|a l IHl]; intros z P; cbn [ptotal partition_from] in *; [lia|].
+    destruct P as (_ & Da & _ & P). specialize (IHl _ P). lia. }
+  destruct I as [<-|I].
+  - repeat split; try assumption; lia.
+  - destruct (IH _ P I) as (A & B & C & E). repeat split; try assumption; lia.
+Qed.
+
+Lemma partition_split f l x : partition_from f l -> f <= x < f + ptotal l ->
+  exists l1 r l2, l = l1 ++ r :: l2 /\ pcovers r x /\ (forall r', In r' (l1 ++ l2) -> ~ pcovers r' x).
+Proof.
+  revert f; induction l as [|r l IH]; intros f P H; cbn [ptotal partition_from] in *; [lia|].
+  destruct P as (S & D & O & P).
+  destruct (Z_lt_ge_dec x (f + p_delta r)) as [Lt|Ge].
+  - exists [], r, l. split; [reflexivity|]. split; [unfold pcovers; lia|].
+    intros r' I C. cbn [app] in I. destruct (partition_in _ _ _ P I) as (A & _). unfold pcovers in C. lia.
+  - destruct (IH _ P ltac:(lia)) as (l1 & r0 & l2 & -> & C & U).
+    exists (r :: l1), r0, l2. split; [reflexivity|]. split; [exact C|].
+    intros r' I C'. cbn [app] in I. destruct I as [<-|I]; [unfold pcovers in C'; lia | exact (U _ I C')].
+Qed.
+
+(* fetch_add hands out pairwise disjoint ranges *)
+Theorem partition_disjoint f l1 r1 l2 r2 l3 x :
+  partition_from f (l1 ++ r1 :: l2 ++ r2 :: l3) -> pcovers r1 x -> ~ pcovers r2 x.
+Proof.
+  intros P C1 C2. apply partition_app in P. destruct P as [_ P]. cbn [partition_from] in P. destruct P as (S & D & O & P).
+  assert (I : In r2 (l2 ++ r2 :: l3)) by (rewrite in_app_iff; right; left; reflexivity).
+  destruct (partition_in _ _ _ P I) as (A & _). unfold pcovers in *. lia.
+Qed.
+
+(* every bucket >= 1 whose trigger index has been handed out is in the allocation list of exactly one reservation *)
+Theorem unique_allocator strat shift l k :
+  0 <= shift -> partition_from 0 l -> 1 <= k -> trigger strat shift k < ptotal l ->
+  exists l1 r l2, l = l1 ++ r :: l2 /\ In k (allocs_of strat shift r) /\
+                  (forall r', In r' (l1 ++ l2) -> ~ In k (allocs_of strat shift r')).
+Proof.
+  intros Hs P Hk T.
+  destruct (partition_split 0 l (trigger strat shift k) P ltac:(pose proof (g_trigger_nonneg strat shift k Hs Hk); lia))
+    as (l1 & r & l2 & -> & C & U).
+  exists l1, r, l2. split; [reflexivity|].
+  assert (W : forall r', In r' (l1 ++ r :: l2) ->
+              (In k (allocs_of strat shift r') <-> 1 <= k /\ pcovers r' (trigger strat shift k))).
+  { intros r' I. destruct (partition_in _ _ _ P I) as (A & B & O & _). apply allocs_of_spec; try assumption; lia. }
+  split.
+  - apply W; [rewrite in_app_iff; right; left; reflexivity | split; assumption].
+  - intros r' I Q. apply W in Q; [exact (U _ I (proj2 Q))|].
+    rewrite in_app_iff in *. cbn [In]. tauto.
+Qed.
+
+(* every bucket a reservation waits for (in particular every bucket it constructs into) is allocated by that reservation
+   or by one with a smaller start *)
+Theorem allocator_precedes strat shift l1 r l2 k :
+  0 <= shift -> partition_from 0 (l1 ++ r :: l2) -> 1 <= k -> In k (waits_of shift r) ->
+  exists r', In r' (l1 ++ [r]) /\ In k (allocs_of strat shift r') /\ p_start r' <= p_start r.
+Proof.
+  intros Hs P Hk W.
+  pose proof P as P0. apply partition_app in P0. destruct P0 as [P1 P2]. cbn [partition_from] in P2.
+  destruct P2 as (S & D & O & _). replace (0 + ptotal l1) with (ptotal l1) in S by lia.
+  assert (Pp : partition_from 0 (l1 ++ [r])).
+  { apply partition_app. split; [exact P1|]. cbn [partition_from]. repeat split; try assumption; lia. }
+  assert (Tp : ptotal (l1 ++ [r]) = p_start r + p_delta r) by (rewrite ptotal_app; cbn [ptotal]; lia).
+  assert (S0 : 0 <= p_start r).
+  { assert (Ir : In r (l1 ++ r :: l2)) by (rewrite in_app_iff; right; left; reflexivity).
+    destruct (partition_in _ _ _ P Ir) as (A & _). lia. }
+  (* k <= bucket of the end of the range *)
+  assert (Kb : k <= bkt shift (p_start r + p_delta r)).
+  { unfold waits_of in W. destruct (p_single r) eqn:Sg.
+    - unfold waits1 in W. destruct W as [<-|[]]. apply g_bkt_mono; [exact Hs | lia].
+    - unfold waitsN in W. apply in_zspan in W. lia. }
+  pose proof (g_bkt_bounds shift (p_start r + p_delta r) Hs ltac:(lia)) as (Bb & Lb & _).
+  pose proof (g_start_mono shift k (bkt shift (p_start r + p_delta r)) Hs ltac:(lia)) as M.
+  pose proof (g_trigger_bounds strat shift k Hs Hk) as TB.
+  destruct (partition_split 0 (l1 ++ [r]) (trigger strat shift k) Pp
+              ltac:(pose proof (g_trigger_nonneg strat shift k Hs Hk); lia)) as (m1 & r' & m2 & E & C & _).
+  assert (I : In r' (l1 ++ [r])) by (rewrite E, in_app_iff; right; left; reflexivity).
+  exists r'. split; [exact I|].
+  destruct (partition_in _ _ _ Pp I) as (A & B & O' & En).
+  split.
+  - apply allocs_of_spec; try assumption; try lia. split; assumption.
+  - apply in_app_iff in I. destruct I as [I|[<-|[]]]; [|lia].
+    destruct (partition_in _ _ _ P1 I) as (_ & B1 & _ & E1). lia.
 Qed.
